@@ -42,7 +42,10 @@ func Boot() {
 	bootOnce.Do(func() {
 		codec.Register()
 		shard, _ := ev.Shard()
-		portBase = 21000 + 1500*(shard%26)
+		portBase = 21000 + 700*(shard%16) // stays below the ephemeral range (32768..)
+		var pn uint32
+		_, _ = fmt.Sscanf(os.Getenv("VERIF_PROPERTY"), "C%d", &pn)
+		portNext = pn * 67 // checks running side by side start at different offsets of the range
 		dir := ev.RunDir()
 		_ = os.MkdirAll(dir, 0o755)
 		cfg := &v2.MOSNConfig{
@@ -74,18 +77,70 @@ func quiet() {
 // Uniq returns a process-unique suffix for names of a case.
 func Uniq() uint64 { return atomic.AddUint64(&counter, 1) }
 
-// FreePort returns a loopback port from this shard's range that could be bound just now.
+// FreePort returns a loopback port from this shard's range that could be bound just now and that no
+// other verif process has reserved (lock files under <root>/.run/portlocks make the probe-then-bind
+// step safe against checks running concurrently in other processes).
 func FreePort() int {
-	for i := 0; i < 3000; i++ {
-		p := portBase + int(atomic.AddUint32(&portNext, 1)%1500)
+	lockDir := filepath.Join(rootDir(), ".run", "portlocks")
+	_ = os.MkdirAll(lockDir, 0o755)
+	for i := 0; i < 6000; i++ {
+		p := portBase + int(atomic.AddUint32(&portNext, 1)%700)
+		lock := filepath.Join(lockDir, fmt.Sprintf("%d", p))
+		if !reserve(lock) {
+			continue
+		}
 		l, err := net.Listen("tcp", fmt.Sprintf("127.0.0.1:%d", p))
 		if err != nil {
+			_ = os.Remove(lock)
 			continue
 		}
 		_ = l.Close()
+		portLocks.Store(p, lock)
 		return p
 	}
 	panic("mesh: no free port in the shard's range")
+}
+
+var portLocks sync.Map
+
+func rootDir() string {
+	if r := os.Getenv("VERIF_ROOT"); r != "" {
+		return r
+	}
+	return "/verif"
+}
+
+// reserve creates the lock file exclusively; a lock whose owner process is gone is taken over.
+func reserve(lock string) bool {
+	for attempt := 0; attempt < 2; attempt++ {
+		f, err := os.OpenFile(lock, os.O_CREATE|os.O_EXCL|os.O_WRONLY, 0o644)
+		if err == nil {
+			fmt.Fprintf(f, "%d", os.Getpid())
+			_ = f.Close()
+			return true
+		}
+		b, rerr := os.ReadFile(lock)
+		if rerr != nil {
+			continue
+		}
+		var pid int
+		_, _ = fmt.Sscanf(string(b), "%d", &pid)
+		if pid > 0 && pid != os.Getpid() {
+			if _, serr := os.Stat(fmt.Sprintf("/proc/%d", pid)); serr == nil {
+				return false // owner alive
+			}
+		} else if pid == os.Getpid() {
+			return false
+		}
+		_ = os.Remove(lock) // stale
+	}
+	return false
+}
+
+func releasePort(p int) {
+	if v, ok := portLocks.LoadAndDelete(p); ok {
+		_ = os.Remove(v.(string))
+	}
 }
 
 // Opts describes the proxy a case wants.
@@ -113,6 +168,33 @@ type Case struct {
 	RouterName  string
 	ListenerCfg *v2.Listener
 	closed      int32
+	filters     []v2.Filter
+	opts        Opts
+}
+
+func (c *Case) buildListener(mod func(*v2.Listener)) *v2.Listener {
+	ln := &v2.Listener{ListenerConfig: v2.ListenerConfig{Name: c.Name + "_listener", AddrConfig: c.Addr, BindToPort: true, Network: "tcp",
+		FilterChains:  []v2.FilterChain{{FilterChainConfig: v2.FilterChainConfig{Filters: c.filters}}},
+		StreamFilters: c.opts.StreamFilters}}
+	if c.opts.Listener != nil {
+		c.opts.Listener(ln)
+	}
+	if mod != nil {
+		mod(ln)
+	}
+	return ln
+}
+
+// UpdateListener re-submits the case's listener (same name and address) through the runtime-update
+// API after mod changed its configuration (TLS contexts, inspector, stream filters ...).
+func (c *Case) UpdateListener(mod func(*v2.Listener)) error {
+	ln := configmanager.ParseListenerConfig(c.buildListener(mod), nil, nil)
+	if err := server.GetListenerAdapterInstance().AddOrUpdateListener("", ln); err != nil {
+		return err
+	}
+	c.ListenerCfg = ln
+	quiet()
+	return nil
 }
 
 func toMap(v interface{}) map[string]interface{} {
@@ -186,12 +268,8 @@ func NewCase(o Opts) (*Case, error) {
 		}
 		filters = []v2.Filter{{Type: "proxy", Config: toMap(px)}}
 	}
-	ln := &v2.Listener{ListenerConfig: v2.ListenerConfig{Name: c.Name + "_listener", AddrConfig: c.Addr, BindToPort: true, Network: "tcp",
-		FilterChains:  []v2.FilterChain{{FilterChainConfig: v2.FilterChainConfig{Filters: filters}}},
-		StreamFilters: o.StreamFilters}}
-	if o.Listener != nil {
-		o.Listener(ln)
-	}
+	c.filters, c.opts = filters, o
+	ln := c.buildListener(nil)
 	c.ListenerCfg = configmanager.ParseListenerConfig(ln, nil, nil)
 	if err := server.GetListenerAdapterInstance().AddOrUpdateListener("", c.ListenerCfg); err != nil {
 		return nil, fmt.Errorf("add listener: %v", err)
@@ -202,6 +280,9 @@ func NewCase(o Opts) (*Case, error) {
 	for i := 0; i < 400; i++ {
 		conn, err := net.DialTimeout("tcp", c.Addr, 200*time.Millisecond)
 		if err == nil {
+			if tc, ok := conn.(*net.TCPConn); ok {
+				_ = tc.SetLinger(0) // no TIME_WAIT socket per case
+			}
 			_ = conn.Close()
 			return c, nil
 		}
@@ -218,4 +299,8 @@ func (c *Case) Close() {
 	}
 	_ = server.GetListenerAdapterInstance().DeleteListener("", c.Name+"_listener")
 	_ = cluster.GetClusterMngAdapterInstance().TriggerClusterDel(c.ClusterName)
+	var port int
+	if _, err := fmt.Sscanf(c.Addr, "127.0.0.1:%d", &port); err == nil {
+		releasePort(port)
+	}
 }
